@@ -21,8 +21,8 @@ inductive SkipEnd where
   | Else | Endif | Eof
 deriving DecidableEq, Repr
 
-/-- the message of a conditional that is still open when the text ends -/
-def eofMsg : String := "reached EOF without matching #endif"
+/-- the message of a conditional that is still open when the text ends; its wording is read from `preprocessor.rs` on every run (`Tables.eofMessage`) -/
+def eofMsg : String := String.ofList Tables.eofMessage
 
 /-- a token as delivered by a `TokenStream::eat` call -/
 structure Tok where
